@@ -76,7 +76,7 @@ class World(WorldBase):
             "producers": rng.sample(PRODUCERS, rng.randint(1, 3)),
             "p_exact": rng.choice([0.0, 0.3, 0.7]),
             "p_default_args": rng.choice([0.0, 0.3]),
-            "maxN": rng.choice([6, 12, 24, 40, 40, 130]),
+            "maxN": rng.choice([6, 12, 24, 40, 40, 130, 130]),
             "maxT": rng.randint(1, 3),
             "faults": [],
             "hold_max": 0,
@@ -148,6 +148,10 @@ class World(WorldBase):
             rows = self.files[d["path"]]["frames"][d["cursor"]]
             maxcn = max(r[1] for r in rows)
             pool = list(range(1, maxcn + 3)) + [200, None]
+            if rng.random() < 0.4:
+                # the interesting requested maxima: around the largest coordination number, the
+                # default, and values around which a buffer might be sized
+                pool = [max(1, maxcn - 1), maxcn, maxcn + 1, 200, None, 65, 100, 129]
             op = {"op": "read_frame", "h": h, "nmax": rng.choice(pool)}
             fk = [k for k in sw["faults"] if k in ("short_read", "oserror_read", "interrupt")]
             if fk and rng.random() < sw.get("p_fault", 0):
@@ -197,9 +201,22 @@ class World(WorldBase):
             else:
                 top = cfg.N - 1
                 op["n"] = rng.choice([1, 2, top, top, max(1, top - 1)] + list(range(1, top + 1)))
+        def by_target():
+            # a cutoff that gives some particle exactly k neighbours, k uniform over 1..N-2: every
+            # coordination number (and every digit / power-of-two boundary) is as likely as any other
+            D = cfg.tables[rng.randrange(cfg.T)][0]
+            d = sorted(D[rng.randrange(cfg.N)])[1:]
+            k = rng.randint(1, max(1, len(d) - 1))
+            return round(0.5 * (d[k - 1] + d[k]), 9) if k < len(d) else round(d[-1] * 1.01, 9)
+
         if kind == "cutoff":
             for _try in range(100):
-                rc = rng.choice(EXACT_RC) if cfg.exact else round(rng.uniform(0.15, 0.75) * cfg.Lmin, 6)
+                if cfg.exact:
+                    rc = rng.choice(EXACT_RC)
+                elif rng.random() < 0.5 and cfg.N >= 4:
+                    rc = by_target()
+                else:
+                    rc = round(rng.uniform(0.15, 0.75) * cfg.Lmin, 6)
                 if cfg.cutoff_ok(rc):
                     break
                 self.ctx.probe("regen_cutoff")
@@ -209,6 +226,8 @@ class World(WorldBase):
             for _try in range(100):
                 if cfg.exact:
                     M = [[rng.choice(EXACT_RC) for _ in range(K)] for _ in range(K)]
+                elif rng.random() < 0.4 and cfg.N >= 4:
+                    M = [[by_target() for _ in range(K)] for _ in range(K)]
                 else:
                     M = [[round(rng.uniform(0.15, 0.75) * cfg.Lmin, 6) for _ in range(K)] for _ in range(K)]
                 if cfg.cutoff_ok(M):
